@@ -261,7 +261,7 @@ class RawVoltageBackend(object):
         return backend
     
     
-    def _header_populate_configuration(self, header_dict={}):
+    def _header_populate_configuration(self, header_dict={}, user_keys=()):
         """
         Populate the given dictionary with entries showing the configuration values.
         
@@ -269,24 +269,29 @@ class RawVoltageBackend(object):
         ----------
         header_dict : dict, optional
             Dictionary of header values to set.
+        user_keys : collection of str, optional
+            Keys whose values were supplied by the user (never tagged as inherited)
         """
         # Set header values determined by pipeline parameters
         # Values inherited from an input recording are tagged; values supplied by the user are kept
         if 'TELESCOP' not in header_dict:
             header_dict['TELESCOP'] = 'SETIGEN'
         elif (self.input_header_dict is not None
+                and 'TELESCOP' not in user_keys
                 and header_dict['TELESCOP'] == self.input_header_dict.get('TELESCOP', '').strip()
                 and 'SETIGEN' not in header_dict['TELESCOP']):
             header_dict['TELESCOP'] = f"{header_dict['TELESCOP']}_SETIGEN"
         if 'OBSERVER' not in header_dict:
             header_dict['OBSERVER'] = 'SETIGEN'
         elif (self.input_header_dict is not None
+                and 'OBSERVER' not in user_keys
                 and header_dict['OBSERVER'] == self.input_header_dict.get('OBSERVER', '').strip()
                 and 'SETIGEN' not in header_dict['OBSERVER']):
             header_dict['OBSERVER'] = f"{header_dict['OBSERVER']}_SETIGEN"
         if 'SRC_NAME' not in header_dict:
             header_dict['SRC_NAME'] = 'SYNTHETIC'
         elif (self.input_header_dict is not None
+                and 'SRC_NAME' not in user_keys
                 and header_dict['SRC_NAME'] == self.input_header_dict.get('SRC_NAME', '').strip()
                 and 'SYNTHETIC' not in header_dict['SRC_NAME']):
             header_dict['SRC_NAME'] = f"{header_dict['SRC_NAME']}_SETIGEN"
@@ -657,12 +662,13 @@ class RawVoltageBackend(object):
         # Work on a copy, so that neither the caller's dictionary nor the shared
         # default argument is modified by this (or changes a later) recording
         header_dict = dict(header_dict)
+        user_keys = set(header_dict)
         if load_template:
             header_dict = self._header_add_from_template(header_dict)
         if self.input_header_dict is not None:
             header_dict = self._header_add_from_input_header(header_dict)
         # Update header with config last to honor prior entries
-        header_dict = self._header_populate_configuration(header_dict)
+        header_dict = self._header_populate_configuration(header_dict, user_keys=user_keys)
         
         # Mark each antenna and data stream as the start of the observation
         self.antenna_source.reset_start()
